@@ -120,6 +120,28 @@ def showObs : Obs → String
   | .sentPlain => "sentplain"
   | .sendError => "senderror"
 
+def ifResOf : String → Option IfRes
+  | "ok" => some .ok | "comm" => some .comm | "conv" => some .conv | "noconf" => some .noconf | _ => none
+
+def ifResName : IfRes → String
+  | .ok => "ok" | .comm => "comm" | .conv => "conv" | .noconf => "noconf"
+
+/-- `t,<group>,<keyed>,<ok|comm|conv|noconf>` or any `parseEv` event. -/
+def parseTEv (s : String) : Option TEv :=
+  match s.splitOn "," with
+  | ["t", grp, keyed, res] => (ifResOf res).map fun r => .transmit (bit grp) (bit keyed) r
+  | _ => (parseEv s).map .base
+
+def showTObs : TObs → String
+  | .base o => showObs o
+  | .outcome r => s!"if:{ifResName r}"
+
+def runTHist (s : St) : List TEv → List String
+  | [] => []
+  | e :: es =>
+    let (s', o) := tstep s e
+    s!"{"+".intercalate (o.map showTObs)}/{showTable s'.senders}/{s'.sendSeq}" :: runTHist s' es
+
 def runHist (s : St) : List Ev → List String
   | [] => []
   | e :: es =>
@@ -133,7 +155,8 @@ def runHist (s : St) : List Ev → List String
   `plain  <key> <scf> <src> <dst> <group> <eff> <tpci> <asdu>`       → `ok <apdu>` | `err <class>`
   `recv   <keys|none> <senders> <sendSeq> <ctrl> <src> <dst> <tpci> <N|P|S> <payload> <inner>` → `<route> <senders'>`
   `out    <keys> <sendSeq> <ctrl> <src> <dst> <tpci> <N|P|S> <payload>` → `secured <apdu> <sendSeq'>` | `plain <sendSeq'>` | …
-  `hist   <senders> <sendSeq> <ev>…` → `<obs>/<senders>/<sendSeq>` per event -/
+  `hist   <senders> <sendSeq> <ev>…` → `<obs>/<senders>/<sendSeq>` per event
+  `thist  <senders> <sendSeq> <tev>…` → `<obs>+<if:verdict>/<senders>/<sendSeq>` per event (send_telegram layer) -/
 def handle : List String → String
   | [op, key, scf, seq, src, dst, group, eff, tpci, apdu] =>
     if op == "secure" || op == "spec" then
@@ -185,6 +208,10 @@ def handle : List String → String
       | (ds', .dsError _) => s!"dserror {ds'.sendSeq}"
       | (ds', .escape e) => s!"raised {excName e} {ds'.sendSeq}"
     | _, _, _, _, _, _, _ => "bad-op"
+  | "thist" :: senders :: sendSeq :: evs =>
+    match parseTable senders, sendSeq.toNat?, evs.mapM parseTEv with
+    | some senders, some sendSeq, some evs => " ".intercalate (runTHist ⟨senders, sendSeq⟩ evs)
+    | _, _, _ => "bad-op"
   | "hist" :: senders :: sendSeq :: evs =>
     match parseTable senders, sendSeq.toNat?, evs.mapM parseEv with
     | some senders, some sendSeq, some evs => " ".intercalate (runHist ⟨senders, sendSeq⟩ evs) |>.replace "  " " "
